@@ -50,7 +50,18 @@ pub fn run_generic<I: PrimInt + std::panic::RefUnwindSafe + std::panic::UnwindSa
                 "count" => emit(a(l.count(c(&o[1]), c(&o[2])))),
                 "cov" => emit(a(l.cov().to_u64().unwrap())),
                 "len" => emit(a(l.len())),
-                "ivs" => emit(tag("ivs", l.iter().map(sx_iv).collect())),
+                "isempty" => emit(a(l.is_empty() as u8)),
+                "ivcmp" => {
+                    let (x, y) = (iv::<I>(&o[1]), iv::<I>(&o[2]));
+                    if (x.partial_cmp(&y) != Some(x.cmp(&y))) || ((x == y) != (x.cmp(&y) == std::cmp::Ordering::Equal)) { emit(a("ORACLE-FAIL:eq/partial_cmp/cmp-disagree")); }
+                    emit(Sx::L(vec![a("ivcmp"), a((x == y) as u8), a(match x.cmp(&y) { std::cmp::Ordering::Less => "lt", std::cmp::Ordering::Equal => "eq", std::cmp::Ordering::Greater => "gt" })]));
+                }
+                "ivs" => {
+                    let v: Vec<Sx> = l.iter().map(sx_iv).collect();
+                    let v2: Vec<Sx> = (&l).into_iter().map(sx_iv).collect();
+                    if v != v2 || v.len() != l.len() { emit(a("ORACLE-FAIL:iter/into_iter/len-disagree")); }
+                    emit(tag("ivs", v))
+                }
                 "depth" => emit(tag(
                     "d",
                     l.depth().map(|d| Sx::L(vec![a(d.start.to_u64().unwrap()), a(d.stop.to_u64().unwrap()), a(d.val.to_u64().unwrap())])).collect(),
@@ -58,6 +69,7 @@ pub fn run_generic<I: PrimInt + std::panic::RefUnwindSafe + std::panic::UnwindSa
                 "ui" => {
                     let b: Lapper<I, u32> = build(&o[1], o[2].tagged("ops"));
                     let (u, i) = l.union_and_intersect(&b);
+                    if l.union(&b) != u || l.intersect(&b) != i { emit(a("ORACLE-FAIL:union/intersect-differ-from-union_and_intersect")); }
                     // union()/intersect() are the same computation; exercised for symmetry by the generator
                     emit(Sx::L(vec![a("ui"), a(u.to_u64().unwrap()), a(i.to_u64().unwrap())]));
                 }
